@@ -337,6 +337,13 @@ func c11Exec(in []string) []string {
 	}
 
 	writer := runtime.ClientRequestWriterFunc(func(req runtime.ClientRequest, _ strfmt.Registry) error {
+		if (payload != nil || len(c.fnames)+len(c.ffnames) > 0) && (len(c.pdata)+len(c.fnames)+len(c.ffnames))%3 == 1 {
+			// an operation that also writes a Content-Type header parameter of its own: the header sent must
+			// still describe the body that is sent
+			if err := req.SetHeaderParam("Content-Type", "application/x-set-by-the-operation"); err != nil {
+				return err
+			}
+		}
 		if payload != nil {
 			if err := req.SetBodyParam(payload); err != nil {
 				return err
